@@ -328,7 +328,20 @@ struct World {
 // outermost end() appends '\n' and hands the entry to the appender. Shapes (bits of e.shape):
 //   bit 0    a nested begin(args)/end() pair in the middle: must neither repeat the header nor send the entry
 //   bit 1    noflush(); end(); begin(args): suspends the entry, the resuming begin writes no header and no args
-//   bits 2-3 piece size class, bits 4.. piece operation rotation
+//   bits 2-3 piece size class, bits 4-8 piece operation rotation
+//   bit 9    the last piece of the body is printed by a user type whose operator<<(std::ostream&) writes its bytes and
+//            then reports failure (setstate(failbit), ordinary iostream behaviour): the next entry on the same stream
+//            must be unaffected (LogStream::end() resets the stream state)
+struct Blob {
+  const char* p;
+  size_t n;
+  bool fail_after;
+};
+std::ostream& operator<<(std::ostream& os, const Blob& b) {
+  os.write(b.p, (std::streamsize)b.n);
+  if (b.fail_after) os.setstate(std::ios_base::failbit);
+  return os;
+}
 struct FrontEnd {
   const std::string* frame = nullptr;  // what the current entry's formatter has to write
   std::vector<std::unique_ptr<babylon::LogStream>> streams;
@@ -341,8 +354,8 @@ void stream_entry(babylon::LogStream& ls, const std::string& frame, uint32_t sha
   size_t pos = 5;
   static const size_t piece_sizes[] = {1, 7, 61, 1000};
   size_t piece = piece_sizes[(shape >> 2) & 3];
-  uint32_t rot = shape >> 4;
-  bool nested = shape & 1, suspend = shape & 2;
+  uint32_t rot = (shape >> 4) & 31;
+  bool nested = shape & 1, suspend = shape & 2, fail_last = shape & 512;
   size_t mid = 5 + (body_end - 5) / 2;
   int k = 0;
   while (pos < body_end) {
@@ -358,11 +371,17 @@ void stream_entry(babylon::LogStream& ls, const std::string& frame, uint32_t sha
       ls.begin('Y', StringView("never written"));
     }
     size_t n = std::min(piece, body_end - pos);
-    switch ((rot + (uint32_t)k++) % 5) {
+    if (fail_last && pos + n == body_end) {
+      ls << Blob{frame.data() + pos, n, true};
+      pos += n;
+      break;
+    }
+    switch ((rot + (uint32_t)k++) % 6) {
       case 0: ls.write(frame.data() + pos, n); break;
       case 1: ls << StringView(frame.data() + pos, n); break;
       case 2: n = 1; ls.write(frame[pos]); break;
       case 3: n = 1; ls << frame[pos]; break;
+      case 4: ls << Blob{frame.data() + pos, n, false}; break;  // a user type: goes through the std::ostream layer
       default: {
         // format("%s") stops at a NUL: take the run up to the next zero byte
         size_t m = 0;
@@ -511,13 +530,14 @@ void run_case(Chooser& c) {
   if (c.below(3) == 1) {
     bool any = false;
     for (auto& e : w.entries) {
-      uint32_t shape = c.below(1u << 10);
-      if (!e.discard && e.len >= 6 && (shape >> 9) == 0) {
+      uint32_t shape = c.below(1u << 11);
+      if (!e.discard && e.len >= 6 && (shape >> 10) == 0) {
         e.chunking = 4;
         e.shape = shape;
         any = true;
         if (shape & 1) dsched::label("front_end_nested_begin_end");
         if (shape & 2) dsched::label("front_end_noflush_resume");
+        if (shape & 512) dsched::label("front_end_printer_reports_failure");
       }
     }
     if (any) {
